@@ -40,6 +40,11 @@ CLAIMS = {
         technique="Lean 4 invariant/frame proofs over ALL op sequences of a DataFormat/Data model with an explicit refcounted heap; tables (enum, sizeof/alignof by compiled probe, alignment rule, container and text case tables, fall-through flag) regenerated from data_format.h/.cpp; differential correspondence on random op sequences (ASan/UBSan/LSan harness); property-level oracle families on the real classes",
         text="Layout invariant (cumulative offsets, disjointness, 8-byte alignment after alignDataFor), add preserves/idempotent/conflict, deep copy with exact refcounts for containers, clear zeroes exactly the non-persistent attributes, text round trip for INT/DOUBLE/POINT/TENSOR/STRING - for every op sequence. Three genuine defects about STRING and container attributes are recorded as known findings (witness theorems + real replays) and reported as KNOWN-FINDING.",
         note=BASE_NOTE + "Hypothesis of the text round trip: libc %g/atof/atoi are inverse on the <= 6 significant digit domain (validated against libc by the correspondence, proved for the executable codec on a finite table). Operations the model classifies as undefined behaviour (stale block, null format, misaligned without alignDataFor) end a case."),
+    "C12": dict(
+        level="proof", design="DESIGN.md section 3, C12 (PARTIAL)",
+        technique="Lean 4 `decide` theorems over the table of ALL entropy sites (getpid/time/clock/srand/rand/...) regenerated from the source with their randomize guards; two-process byte-identity runs of stochastic scenarios under different pid, start second, TMP, cwd, environment",
+        text="C12_sites: every entropy site is non-semantic (timing, temp-file name), reached only with randomize=true, or made deterministic (rand() re-seeded in Simulation::setup); C12_seed_const: with randomize off no seed depends on pid or clock. PARTIAL: non-interference through uninitialised memory or address-ordered containers is a run-time fact; it is covered only by the two-process comparison (byte-identical observer dumps).",
+        note=BASE_NOTE + "PARTIAL as stated. The site classifier of the translator (enclosing function, if/else randomize guard) is heuristic text analysis; a site it cannot classify is reported as unguarded, which fails C12_sites."),
 }
 
 
